@@ -251,7 +251,7 @@ static void run(void) {
 	int pol, variant;
 	for (pol = 0; pol < P_NPOL; pol++) for (variant = 0; variant < NSIGV; variant++) {
 		int part;
-		if (!VF_THOROUGH && !(variant == 0 || variant == 5 || ((variant == 6 || variant == 7) && (pol == P_INTERNAL || pol == P_GENERAL)) || (variant == 4 && pol == P_INTERNAL) || (variant == 2 && pol == P_KEY))) continue;
+		if (!VF_THOROUGH && !(variant == 0 || variant == 5 || ((variant == 6 || variant == 7) && (pol == P_INTERNAL || pol == P_GENERAL)) || ((variant == 4 || variant == 1) && pol == P_INTERNAL) || (variant == 1 && pol == P_GENERAL) || (variant == 2 && pol == P_KEY))) continue;   /* variant 1: the first link has no level correction element at all */
 		for (part = 0; part < 3; part++) {
 			world_t w;
 			const unsigned char *dh;
